@@ -4,6 +4,7 @@ package main
 
 import (
 	"fmt"
+	"go/constant"
 	"go/token"
 	"go/types"
 	"strings"
@@ -222,6 +223,14 @@ func rC10Descent(w *World, r *Report) {
 		ru.Check(m.underCommandMatch(pred), "descent/equality", pos, "under key == iterator.Value() with key ranging over the cursor's ChildCommands", "the cursor moves without an exact match of the token against the cursor's command names (prefix match, other table, or unconditional)")
 		// new node = value of the same range entry
 		okVal := false
+		if lk := m.commandLookupAt(pred); lk != nil {
+			// direct lookup idiom: the new cursor is the value of that very lookup, in the cursor's own table
+			if ex, ok := e.(*ssa.Extract); ok && ex.Index == 0 && ex.Tuple == ssa.Value(lk) {
+				if b, ok := loadOfField(lk.X, m.fChildCommands); ok && b == ssa.Value(m.cursorPhi) {
+					okVal = true
+				}
+			}
+		}
 		if ex, ok := e.(*ssa.Extract); ok && ex.Index == 2 {
 			if nx, ok := ex.Tuple.(*ssa.Next); ok {
 				if rg, ok := nx.Iter.(*ssa.Range); ok {
@@ -717,10 +726,8 @@ func helpTest(fn *ssa.Function) *ssa.If {
 		if u, ok := c.(*ssa.UnOp); ok && u.Op == token.NOT {
 			c = u.X
 		}
-		if call, ok := c.(*ssa.Call); ok && calleeName(call) == "(*getoptions.GetOpt).Called" {
-			if _, ok := loadOfFieldNamed(call.Call.Args[1], "HelpCommandName"); ok {
-				out = iff
-			}
+		if call, ok := c.(*ssa.Call); ok && isHelpCalledPredicate(call, 0) {
+			out = iff
 		}
 	}
 	return out
@@ -1091,7 +1098,7 @@ func cutUserCode(e *callgraph.Edge) bool {
 }
 
 func rC12Reachability(w *World, r *Report) {
-	ru := r.Rule("R12.2", "call graph (CHA): from Parse and Dispatch (user functions cut off) no os.Getenv with a non-constant name and no call through a ModifyFn value is reachable; ModifyFn values are called only inside the twelve definers", 13)
+	ru := r.Rule("R12.2", "call graph (CHA): from Parse and Dispatch (user functions cut off) no os.Getenv with a non-constant name and no call through a ModifyFn value is reachable; ModifyFn values are called only inside the twelve definers (or a helper only they call)", 2)
 	roots := []*ssa.Function{w.Fn(nParse), w.Fn(nDispatch), w.Fn(nParseCLI)}
 	if roots[0] == nil || roots[1] == nil {
 		ru.Undecided("anchor", "-", "Parse / Dispatch not found")
@@ -1130,6 +1137,8 @@ func rC12Reachability(w *World, r *Report) {
 			if calleeName(c) == nDynModifyFn {
 				if definers[short(fn)] {
 					ru.Present("modifier-site/"+short(fn), w.IPos(c), "definition time")
+				} else if isModifierApplier(fn) && onlyCalledFrom(w, fn, definers) {
+					ru.Present("modifier-site/"+short(fn), w.IPos(c), "helper called only by the definers")
 				} else {
 					ru.Bad("modifier-site/"+short(fn), w.IPos(c), "modifiers are applied outside the definers")
 				}
@@ -1188,24 +1197,43 @@ func rC12GetEnvBody(w *World, r *Report) {
 		ru.Check(sameFree(c.Common().Args[1], nameArg), "GetEnv/SetCalled-name", w.IPos(c), "CalledAs = the variable's name", "SetCalled is not given the variable's name")
 	}
 	for _, k := range kinds {
-		var ksaves, ksetc []ssa.CallInstruction
+		key := "GetEnv/kind/" + k
+		kc, _ := w.Obj("option", k).(*types.Const)
+		if kc == nil {
+			ru.Undecided(key, "-", "kind constant not found")
+			continue
+		}
+		kval, _ := constantInt64(kc)
+		edgeOK := kindEdgeFilter(w, kval, getenv)
+		isSave := func(in ssa.Instruction) bool { c, ok := in.(ssa.CallInstruction); return ok && calleeName(c) == nSave }
+		isSetC := func(in ssa.Instruction) bool {
+			c, ok := in.(ssa.CallInstruction)
+			return ok && calleeName(c) == "(*option.Option).SetCalled"
+		}
+		isRet := func(in ssa.Instruction) bool { _, ok := in.(*ssa.Return); return ok }
+		reach := ig.reachFromE([]int{0}, nil, edgeOK)
+		var ksaves []ssa.CallInstruction
 		for _, c := range saves {
-			if kindArmContains(w, fn, k, c.Block()) {
+			if reach[ig.idx[c]] {
 				ksaves = append(ksaves, c)
 			}
 		}
-		for _, c := range setc {
-			if kindArmContains(w, fn, k, c.Block()) {
-				ksetc = append(ksetc, c)
-			}
-		}
-		key := "GetEnv/kind/" + k
-		if len(ksaves) == 0 || len(ksetc) == 0 {
-			ru.Bad(key, w.Pos(fn.Pos()), "kind not handled by GetEnv (Save or SetCalled missing): the variable would be ignored")
+		if len(ksaves) == 0 {
+			ru.Bad(key, w.Pos(fn.Pos()), "kind not handled by GetEnv (no Save reachable for it): the variable would be ignored")
 			continue
 		}
 		good := true
 		why := ""
+		if k != "BoolType" {
+			// with a non-empty value every path saves and marks the option called
+			s1 := ig.reachFromE([]int{0}, isSave, edgeOK)
+			s2 := ig.reachFromE([]int{0}, isSetC, edgeOK)
+			for i, in := range ig.instrs {
+				if isRet(in) && (s1[i] || s2[i]) {
+					good, why = false, "for a non-empty value a path returns without Save(value) / SetCalled(name): valid text would be ignored or the option not marked called"
+				}
+			}
+		}
 		for _, c := range ksaves {
 			els, sp, _ := elementsOf(c.Common().Args[1], map[ssa.Value]bool{})
 			if len(sp) > 0 || len(els) != 1 {
@@ -1219,10 +1247,10 @@ func rC12GetEnvBody(w *World, r *Report) {
 					good, why = false, "bool text is not the lower-cased variable"
 					continue
 				}
-				// Save reachable only through v == "true" / v == "false"
-				kc, _ := w.Obj("option", k).(*types.Const)
-				_ = kc
 				seen := ig.reachFromE([]int{0}, nil, func(term ssa.Instruction, kk int) bool {
+					if !edgeOK(term, kk) {
+						return false
+					}
 					iff, ok := term.(*ssa.If)
 					if !ok {
 						return true
@@ -1243,7 +1271,6 @@ func rC12GetEnvBody(w *World, r *Report) {
 				good, why = false, "the text saved is not the variable's value verbatim"
 			}
 		}
-		// SetCalled after Save in the same arm: order not constrained
 		if good {
 			ru.OK(key, w.IPos(ksaves[0]), "Save(value) + SetCalled(name)")
 		} else {
@@ -1269,4 +1296,140 @@ func sameFree(a, b ssa.Value) bool {
 		return v
 	}
 	return fv(a) == fv(b)
+}
+
+// isHelpCalledPredicate: the call is gopt.Called(<node>.HelpCommandName), or a call of a same-module helper whose
+// result is that call (and false when no help name is declared).
+func isHelpCalledPredicate(call *ssa.Call, depth int) bool {
+	if calleeName(call) == "(*getoptions.GetOpt).Called" {
+		if _, ok := loadOfFieldNamed(call.Call.Args[1], "HelpCommandName"); ok {
+			return true
+		}
+		return false
+	}
+	callee := call.Call.StaticCallee()
+	if callee == nil || callee.Blocks == nil || depth > 1 {
+		return false
+	}
+	sawCalled := false
+	ok := true
+	eachInstr(callee, func(in ssa.Instruction) {
+		ret, isRet := in.(*ssa.Return)
+		if !isRet || len(ret.Results) != 1 {
+			return
+		}
+		for _, leaf := range phiLeaves(ret.Results[0], map[ssa.Value]bool{}) {
+			if c, isC := leaf.(*ssa.Const); isC && c.Value != nil && c.Value.String() == "false" {
+				continue
+			}
+			if c2, isCall := leaf.(*ssa.Call); isCall && isHelpCalledPredicate(c2, depth+1) {
+				sawCalled = true
+				continue
+			}
+			ok = false
+		}
+	})
+	return ok && sawCalled
+}
+
+// onlyCalledFrom: every static call of fn in the library sits in one of the named functions.
+func onlyCalledFrom(w *World, fn *ssa.Function, names map[string]bool) bool {
+	n := 0
+	for _, caller := range w.Funcs {
+		for _, c := range allCalls(caller) {
+			if c.Common().StaticCallee() == fn {
+				n++
+				if !names[short(caller)] {
+					return false
+				}
+			}
+		}
+	}
+	return n > 0
+}
+
+func constantInt64(c *types.Const) (int64, bool) { return constant.Int64Val(c.Val()) }
+
+// kindEdgeFilter prunes branch edges that contradict OptType == kval and getenv != "" (facts on load(OptType) directly,
+// or through a pure same-module predicate applied to it, evaluated over its own source under the assumption).
+func kindEdgeFilter(w *World, kval int64, getenv *ssa.Call) func(term ssa.Instruction, k int) bool {
+	return func(term ssa.Instruction, k int) bool {
+		iff, ok := term.(*ssa.If)
+		if !ok {
+			return true
+		}
+		for _, f := range condFacts(iff.Cond, k == 0, iff) {
+			if f.Y != nil && (f.Op == token.EQL || f.Op == token.NEQ) {
+				if _, isKind := loadOfFieldNamed(f.X, "OptType"); isKind {
+					if c, ok := constInt(f.Y); ok {
+						eq := c == kval
+						if f.Op == token.NEQ {
+							eq = !eq
+						}
+						if !eq {
+							return false
+						}
+					}
+				}
+				if getenv != nil && f.X == ssa.Value(getenv) {
+					if s, ok := constString(f.Y); ok && s == "" && f.Op == token.EQL {
+						return false
+					}
+				}
+			}
+			if f.Op == token.ILLEGAL {
+				if c, ok := f.X.(*ssa.Call); ok {
+					if callee := c.Call.StaticCallee(); callee != nil && callee.Blocks != nil && w.PkgOfFn(callee) != nil {
+						for i, a := range c.Call.Args {
+							if _, isKind := loadOfFieldNamed(a, "OptType"); isKind && i < len(callee.Params) {
+								if decided, val := evalPredicate(callee, callee.Params[i], kval); decided && val != f.Truth {
+									return false
+								}
+							}
+						}
+					}
+				}
+			}
+		}
+		return true
+	}
+}
+
+// evalPredicate explores a small pure predicate under the assumption param == val and reports its constant result, if unique.
+func evalPredicate(fn *ssa.Function, param *ssa.Parameter, val int64) (decided, result bool) {
+	results := map[string]bool{}
+	other := false
+	pe := &pathExplorer{
+		assume: func(f Fact) (bool, bool) {
+			if f.Y != nil && (f.Op == token.EQL || f.Op == token.NEQ) && f.X == ssa.Value(param) {
+				if c, ok := constInt(f.Y); ok {
+					eq := c == val
+					if f.Op == token.NEQ {
+						eq = !eq
+					}
+					return true, eq
+				}
+			}
+			return false, false
+		},
+		onReturn: func(ret *ssa.Return, env boolEnv) {
+			if len(ret.Results) != 1 {
+				other = true
+				return
+			}
+			switch evalBool(ret.Results[0], env) {
+			case 2:
+				results["true"] = true
+			case 1:
+				results["false"] = true
+			default:
+				other = true
+			}
+		},
+	}
+	pe.startBlock(fn.Blocks[0], boolEnv{})
+	if other || len(results) != 1 {
+		return false, false
+	}
+	return true, results["true"]
 }
